@@ -63,8 +63,8 @@ func (c *c04state) add(kind, what string, secret bool, b []byte) {
 	c.first2[f>>3] |= 1 << (f & 7)
 }
 
-func (c *c04state) addSecret(kind, what string, b []byte)  { c.add(kind, what, true, b) }
-func (c *c04state) addQuasi(kind string, b []byte)         { c.add(kind, kind, false, b) }
+func (c *c04state) addSecret(kind, what string, b []byte) { c.add(kind, what, true, b) }
+func (c *c04state) addQuasi(kind string, b []byte)        { c.add(kind, kind, false, b) }
 func (c *c04state) addSecretHex(kind, what string, b []byte) {
 	c.add(kind, what, true, b)
 	c.add(kind+"-hex", what+" (hex)", true, []byte(hex.EncodeToString(b)))
@@ -424,7 +424,7 @@ func (c *c04state) final() {
 // watching-only, reopens it, and checks what properties C04 and C05 say about
 // a watching-only wallet.
 func (r *run) opConvert(op interface{ Arg(int) int64 }) {
-	if r.prop != "C04" && r.prop != "C05" {
+	if r.prop != "C04" && r.prop != "C05" && r.prop != "C10" {
 		return
 	}
 	img, err := r.db.Image()
@@ -466,7 +466,23 @@ func (r *run) opConvert(op interface{ Arg(int) int64 }) {
 	if op.Arg(0)&1 == 1 {
 		_ = viewDB(fdb, func(ns walletdb.ReadBucket) error { return mgr.Unlock(ns, r.m.Priv) })
 	}
-	err = updateDB(fdb, func(ns walletdb.ReadWriteBucket) error { return mgr.ConvertToWatchingOnly(ns) })
+	if r.c10 != nil && r.c10.enum {
+		r.c10.kind = "convert"
+		res := r.c10.enumerate(enumTarget{db: fdb, mgr: func() *waddrmgr.Manager { return mgr }},
+			func(ns walletdb.ReadWriteBucket) error { return mgr.ConvertToWatchingOnly(ns) })
+		r.c10.needResync = false // the copy is thrown away, the run's manager was not touched
+		if res.aborted || r.stop {
+			mgr.Close()
+			fdb.Close()
+			return
+		}
+		err = res.opErr
+		if err == nil {
+			err = res.err
+		}
+	} else {
+		err = updateDB(fdb, func(ns walletdb.ReadWriteBucket) error { return mgr.ConvertToWatchingOnly(ns) })
+	}
 	if err != nil {
 		mgr.Close()
 		fdb.Close()
